@@ -143,14 +143,12 @@ Fixpoint utf8_sm (bs : list N) (needed cp lower upper : N) : list N :=
               end
   end.
 
-(* `UTF_16LE.decode(bytes).0`: Encoding::decode sniffs a byte-order mark first; a BOM selects the
-   decoder and is removed *)
+(* `UTF_16LE.decode_without_bom_handling(bytes).0` (since the fix of C13's class bom_name; before
+   it, Encoding::decode sniffed a byte-order mark and a BOM selected the decoder).  The name
+   [utf16le_decode_bom] is kept for the callers; [utf8_sm] and the big-endian mode of [utf16_sm]
+   are no longer reached from Directory::from_slice. *)
 Definition starts_with (p bs : list N) : bool := bytes_eqb (firstn (length p) bs) p.
-Definition utf16le_decode_bom (bs : list N) : list N :=
-  if starts_with [239; 187; 191] bs then utf8_sm (skipn 3 bs) 0 0 128 191
-  else if starts_with [255; 254] bs then utf16_sm false (skipn 2 bs) None 0
-  else if starts_with [254; 255] bs then utf16_sm true (skipn 2 bs) None 0
-  else utf16_sm false bs None 0.
+Definition utf16le_decode_bom (bs : list N) : list N := utf16_sm false bs None 0.
 
 (* name.truncate(position of the first 0 byte of the UTF-8 text) = up to the first U+0000 *)
 Fixpoint until_nul (s : list N) : list N :=
